@@ -361,6 +361,107 @@ func callbackPipeline(c *Check) {
 		}
 	}
 	c.Cond(filt, "callback-pipeline", name+": After filter", p.InstrPos(hand), "events before the configured time return before the hand-over", "the After filter does not guard the hand-over")
+	// every successfully coalesced event is handed over, except through the filter on the configured (immutable) time
+	var cerr0 ssa.Value
+	if rr := co.Referrers(); rr != nil {
+		for _, u := range *rr {
+			if ex, ok := u.(*ssa.Extract); ok && ex.Index == 1 {
+				cerr0 = ex
+			}
+		}
+	}
+	if cerr0 != nil {
+		if _, nl, _ := errEdge(cerr0); nl != nil {
+			isFilter := func(in ssa.Instruction) bool {
+				iff, ok := in.(*ssa.If)
+				if !ok {
+					return false
+				}
+				a := atomsOf(Guard{If: iff, Cond: iff.Cond, True: true})
+				cl, ok := a.V.(*ssa.Call)
+				if !ok {
+					return false
+				}
+				sc := staticCallee(cl.Common())
+				return sc != nil && sc.String() == "(time.Time).Before" && strings.HasSuffix(trimOrg(r.Of(cl.Call.Args[1]).String()), ".after")
+			}
+			miss := blockReachesInstr(nl, isReturn, func(in ssa.Instruction) bool { return in == ssa.Instruction(hand) || isFilter(in) })
+			c.Cond(miss == nil, "callback-pipeline", name+": every coalesced event reaches the correlator", p.InstrPos(co), "the only way around the hand-over is the After filter", "a coalesced event can be dropped without being handed to the correlator and without an error (a path around the hand-over other than the After filter)")
+		}
+	}
+	// the filter's bound is configuration: never written after the callback object is built
+	nst, bad := 0, ""
+	for _, f2 := range p.AllRepoFuncs() {
+		allInstrs(f2, func(in ssa.Instruction) {
+			st, ok := in.(*ssa.Store)
+			if !ok {
+				return
+			}
+			fa, ok := st.Addr.(*ssa.FieldAddr)
+			if !ok || fieldName(fa.X.Type(), fa.Field) != "after" {
+				return
+			}
+			if nt := namedOf(fa.X.Type()); nt == nil || nt.Obj().Name() != "reassemblerCB" {
+				return
+			}
+			nst++
+			a, isAlloc := fa.X.(*ssa.Alloc)
+			if !(isAlloc && len(NewResolver(p).cellStores(a)) == 0) {
+				bad = p.InstrPos(in)
+			}
+		})
+	}
+	c.Cond(bad == "" && nst >= 1, "callback-pipeline", name+": filter bound is immutable configuration", p.InstrPos(hand), "the bound is set only when the callback object is built", "the time bound of the filter is rewritten at run time ("+bad+"): events that arrive out of time order are silently skipped")
+	// the callback does not rewrite the coalesced event before the hand-over
+	nrew := 0
+	allInstrs(fn, func(in ssa.Instruction) {
+		var addr ssa.Value
+		switch x := in.(type) {
+		case *ssa.Store:
+			addr = x.Addr
+		case *ssa.MapUpdate:
+			addr = x.Map
+		default:
+			return
+		}
+		cur := addr
+		for {
+			switch y := cur.(type) {
+			case *ssa.FieldAddr:
+				cur = y.X
+				continue
+			case *ssa.IndexAddr:
+				cur = y.X
+				continue
+			case *ssa.UnOp:
+				cur = y.X
+				continue
+			}
+			break
+		}
+		if sameValue(r.Of(cur), arg) {
+			nrew++
+			c.Bad("callback-pipeline", name+": store into the coalesced event ("+trimOrg(r.Of(addr).String())+")", p.InstrPos(in), "the callback rewrites a field of the event before the correlator sees it: what the correlator filters on (session, type, PID) is no longer what the kernel recorded")
+		}
+	})
+	// ... nor hands it to a repository helper that does
+	for _, ci := range callsIn(fn) {
+		sc := staticCallee(ci.Common())
+		if sc == nil || !InRepo(sc) || sc.Blocks == nil {
+			continue
+		}
+		for i, a := range ci.Common().Args {
+			if i < len(sc.Params) && sameValue(r.Of(a), arg) {
+				if at := storesIntoParam(p, sc, sc.Params[i], 0); at != "" {
+					nrew++
+					c.Bad("callback-pipeline", name+": helper "+sc.Name()+" rewrites the coalesced event", p.InstrPos(ci), "a helper called before the hand-over stores into the event ("+at+"): what the correlator filters on (session, type, PID) is no longer what the kernel recorded")
+				}
+			}
+		}
+	}
+	if nrew == 0 {
+		c.OK("callback-pipeline", name+": event handed over as coalesced", p.InstrPos(hand), "no store into the event between coalescing and the hand-over")
+	}
 	// coalesce error path does not hand over
 	var cerr ssa.Value
 	if rr := co.Referrers(); rr != nil {
@@ -377,4 +478,57 @@ func callbackPipeline(c *Check) {
 			c.Cond(bad == nil, "callback-pipeline", name+": coalesce failure", p.InstrPos(co), "no hand-over after a coalesce error", "an event is handed over although coalescing failed")
 		}
 	}
+}
+
+
+// storesIntoParam: does fn (or a repository callee it passes the parameter
+// to) store into memory reached from the parameter? Returns a position.
+func storesIntoParam(p *Prog, fn *ssa.Function, prm *ssa.Parameter, depth int) string {
+	if depth > 3 {
+		return ""
+	}
+	found := ""
+	rootIs := func(addr ssa.Value) bool {
+		cur := addr
+		for {
+			switch y := cur.(type) {
+			case *ssa.FieldAddr:
+				cur = y.X
+				continue
+			case *ssa.IndexAddr:
+				cur = y.X
+				continue
+			case *ssa.UnOp:
+				cur = y.X
+				continue
+			}
+			break
+		}
+		return cur == ssa.Value(prm)
+	}
+	allInstrs(fn, func(in ssa.Instruction) {
+		switch x := in.(type) {
+		case *ssa.Store:
+			if rootIs(x.Addr) {
+				found = p.InstrPos(in)
+			}
+		case *ssa.MapUpdate:
+			if rootIs(x.Map) {
+				found = p.InstrPos(in)
+			}
+		case ssa.CallInstruction:
+			sc := staticCallee(x.Common())
+			if sc == nil || !InRepo(sc) || sc.Blocks == nil {
+				return
+			}
+			for i, a := range x.Common().Args {
+				if a == ssa.Value(prm) && i < len(sc.Params) {
+					if at := storesIntoParam(p, sc, sc.Params[i], depth+1); at != "" {
+						found = at
+					}
+				}
+			}
+		}
+	})
+	return found
 }
